@@ -226,6 +226,7 @@ type recorder struct {
 	mu      sync.Mutex
 	ev      []mEvent
 	nAssoc  int
+	flood   int64 // calls dropped after maxEvents
 	live    map[string]int // client address -> associations added and not yet removed
 	inner   service.UDPMetrics
 	innerSS service.ShadowsocksConnMetrics
@@ -241,7 +242,15 @@ type connRec struct {
 	inner  service.UDPConnMetrics
 }
 
+// maxEvents bounds the memory of the recorder: a proxy that reports without end (e.g. an association goroutine
+// spinning on a closed socket) is flagged as a flood instead of exhausting the machine.
+const maxEvents = 100000
+
 func (r *recorder) add(e mEvent) {
+	if len(r.ev) >= maxEvents {
+		r.flood++
+		return
+	}
 	e.T = time.Now()
 	r.ev = append(r.ev, e)
 }
